@@ -61,6 +61,7 @@ package engine
 //@   use seqmonitor(rules, false, true)
 //@   use seqpost(rules, true, cursor > 0)
 //@   ensures [C12] nothingselected: cursor == 0 ==> result != nil
+//@   ensures [C12] existingrun: rb != nil && len(KC0.SortRules) > 0 && len(KC0.RuleEntities) > 0 && (exists qi :: 0 <= qi && qi < len(names) && (names[qi] in KC0.RuleEntities)) ==> cursor > 0
 //@   ensures [C11,C06] newmap: rb != nil ==> g.returnResult != nil && fresh(g.returnResult)
 //@   modifies frame rulerun, g.returnResult
 //@   nopanic
@@ -193,6 +194,7 @@ package engine
 //@   use seqmonitor(rules, false, b)
 //@   use seqpost(rules, b, cursor > 0)
 //@   ensures [C12] nothingselected: cursor == 0 ==> result != nil
+//@   ensures [C12] existingrun: rb != nil && len(KC0.SortRules) > 0 && len(KC0.RuleEntities) > 0 && (exists qi :: 0 <= qi && qi < len(names) && (names[qi] in KC0.RuleEntities)) ==> cursor > 0
 //@   ensures [C11,C06] newmap: rb != nil ==> g.returnResult != nil && fresh(g.returnResult)
 //@   modifies frame rulerun, g.returnResult
 //@   nopanic
@@ -212,6 +214,7 @@ package engine
 //@   use seqmonitor(rules, false, b)
 //@   use seqpost(rules, b, cursor > 0)
 //@   ensures [C12] nothingselected: cursor == 0 ==> result != nil
+//@   ensures [C12] existingrun: rb != nil && len(KC0.SortRules) > 0 && len(KC0.RuleEntities) > 0 && (exists qi :: 0 <= qi && qi < len(sortedNames) && (sortedNames[qi] in KC0.RuleEntities)) ==> cursor > 0
 //@   ensures [C11,C06] newmap: rb != nil ==> g.returnResult != nil && fresh(g.returnResult)
 //@   modifies frame rulerun, g.returnResult
 //@   nopanic
@@ -234,6 +237,7 @@ package engine
 //@   use seqmonitor(rules, sTag.StopTag, b)
 //@   use seqpost(rules, b, cursor > 0)
 //@   ensures [C12] nothingselected: cursor == 0 ==> result != nil
+//@   ensures [C12] existingrun: rb != nil && len(KC0.SortRules) > 0 && len(KC0.RuleEntities) > 0 && (exists qi :: 0 <= qi && qi < len(names) && (names[qi] in KC0.RuleEntities)) ==> cursor > 0
 //@   ensures [C11,C06] newmap: rb != nil ==> g.returnResult != nil && fresh(g.returnResult)
 //@   modifies frame rulerun, g.returnResult
 //@   nopanic
@@ -253,6 +257,7 @@ package engine
 //@   use seqmonitor(rules, sTag.StopTag, b)
 //@   use seqpost(rules, b, cursor > 0)
 //@   ensures [C12] nothingselected: cursor == 0 ==> result != nil
+//@   ensures [C12] existingrun: rb != nil && len(KC0.SortRules) > 0 && len(KC0.RuleEntities) > 0 && (exists qi :: 0 <= qi && qi < len(sortedNames) && (sortedNames[qi] in KC0.RuleEntities)) ==> cursor > 0
 //@   ensures [C11,C06] newmap: rb != nil ==> g.returnResult != nil && fresh(g.returnResult)
 //@   modifies frame rulerun, g.returnResult
 //@   nopanic
@@ -282,6 +287,7 @@ package engine
 //@     assert [C12] single: len(rules) == 1
 //@   ensures [C12] all: cursor + nfork > 0 ==> cursor + nfork == len(rules) && ((result != nil) <==> (failed || cfailed))
 //@   ensures [C12] nothingselected: cursor + nfork == 0 ==> result != nil
+//@   ensures [C12] existingrun: rb != nil && len(KC0.SortRules) > 0 && len(KC0.RuleEntities) > 0 && (exists qi :: 0 <= qi && qi < len(names) && (names[qi] in KC0.RuleEntities)) ==> cursor + nfork > 0
 //@   ensures [C11] resultmap: rb != nil ==> !pend && fresh(g.returnResult) && dom(g.returnResult) == R
 //@   ensures [C11,C06] newmap: rb != nil ==> g.returnResult != nil && fresh(g.returnResult)
 //@   modifies frame rulerun, g.returnResult
@@ -310,6 +316,7 @@ package engine
 //@   use forkmonitor($2, rules, 1, 0, cursor == 1 && !failed && len(rules) >= 3)
 //@   ensures [C05,C12] mix: cursor > 0 ==> ((result != nil) <==> (failed || cfailed)) && (len(rules) >= 3 ==> cursor == 1 && (nfork == 0 || nfork == len(rules) - 1) && (nfork == 0 <==> failed)) && (len(rules) <= 2 ==> nfork == 0 && (!failed ==> cursor == len(rules)))
 //@   ensures [C12] nothingselected: cursor == 0 ==> result != nil && nfork == 0
+//@   ensures [C12] existingrun: rb != nil && len(KC0.SortRules) > 0 && len(KC0.RuleEntities) > 0 && (exists qi :: 0 <= qi && qi < len(names) && (names[qi] in KC0.RuleEntities)) ==> cursor + nfork > 0
 //@   ensures [C11] resultmap: rb != nil ==> !pend && fresh(g.returnResult) && dom(g.returnResult) == R
 //@   ensures [C11,C06] newmap: rb != nil ==> g.returnResult != nil && fresh(g.returnResult)
 //@   modifies frame rulerun, g.returnResult
@@ -348,6 +355,7 @@ package engine
 //@   ensures [C05,C12] small: 0 < len(rules) && len(rules) <= 2 ==> nfork == 0 && ((result != nil) <==> failed) && (!failed ==> cursor == len(rules))
 //@   ensures [C05,C12] invmix: len(rules) > 2 ==> nfork == len(rules) - 1 && ((result != nil) <==> (failed || cfailed)) && (cursor == 1 || cursor == 0) && (cursor == 0 <==> cfailed)
 //@   ensures [C12] nothingselected: rb != nil && len(rules) == 0 ==> result != nil && cursor == 0 && nfork == 0
+//@   ensures [C12] existingrun: rb != nil && len(KC0.SortRules) > 0 && len(KC0.RuleEntities) > 0 && (exists qi :: 0 <= qi && qi < len(names) && (names[qi] in KC0.RuleEntities)) ==> cursor + nfork > 0
 //@   ensures [C11] resultmap: rb != nil ==> !pend && fresh(g.returnResult) && dom(g.returnResult) == R
 //@   ensures [C11,C06] newmap: rb != nil ==> g.returnResult != nil && fresh(g.returnResult)
 //@   modifies frame rulerun, g.returnResult
